@@ -223,6 +223,9 @@ func toTags(kvs []kv) tag.Tags {
 // entry points report an empty batch as an error).
 func parse(f format, ms []*am, jk []junk, rc *reqCtx) (*metric.BrokerBatchRows, error) {
 	var body []byte
+	if rc.NS == "" && f != fProto {
+		return nil, fmt.Errorf("harness: a request without namespace is only generated for the protobuf path")
+	}
 	switch f {
 	case fProto:
 		body = renderProto(ms, jk)
